@@ -609,6 +609,45 @@ fn main_check(ctx: &Ctx) -> Outcome {
         out.push_part(json!({"system":"console: every sequence of two attribute groups from the default state","sequences":pairs.len()}));
     }
 
+    // codes the statement leaves out (5, 6, 22-29, 59), alone and next to listed groups: the console must see what a
+    // conforming terminal shows, or what it shows without that code - nothing else
+    {
+        let cases = vchecks::wincon_sys::unlisted_code_cases();
+        let bad = std::sync::Mutex::new(Vec::<Finding>::new());
+        cases.par_iter().for_each(|(with, without)| {
+            let r = guard(|| {
+                let sh = Rc::new(RefCell::new(Shared::default()));
+                let mut stream = WinconStream::new(Console(sh.clone()));
+                stream.write_all(with).map_err(|e| format!("write_all failed on a console that accepts everything: {e}"))?;
+                let got = sh.borrow().cells.clone();
+                let conform = expected_cells(&mut RunModel::default(), with);
+                let ignore = expected_cells(&mut RunModel::default(), without);
+                if got != conform && got != ignore {
+                    return Err(format!("console colours differ: write_all({}) -> console got {:?}; a conforming terminal shows {:?}, and {:?} if the left-out code is ignored", show(with), summarize(&got), summarize(&conform), summarize(&ignore)));
+                }
+                Ok(())
+            })
+            .and_then(|r| r);
+            if let Err(m) = r {
+                let mut v = bad.lock().unwrap();
+                if v.len() < 40 {
+                    v.push(Finding {
+                        system: "anstream::WinconStream/left-out-codes".into(),
+                        clause: clause_of(&m),
+                        case: vec![show(with)],
+                        message: m,
+                        replay: json!({"kind":"left-out","with":hex(with),"without":hex(without)}),
+                    });
+                }
+            }
+        });
+        let mut b = bad.into_inner().unwrap();
+        b.sort_by_key(|f| (f.case[0].len(), f.key()));
+        b.truncate(10);
+        out.findings.extend(b);
+        out.push_part(json!({"system":"console: sequences containing a code the statement leaves out (5, 6, 22-29, 59)","sequences":cases.len()}));
+    }
+
     // large buffers: sizes around 8 KiB (std's console writers cut there) and beyond, an escape sequence or a
     // multi-byte character straddling every offset near the cut, through every entry point driven by the standard protocol
     {
@@ -742,6 +781,17 @@ fn replay(v: &serde_json::Value) -> Result<(), String> {
             let got = sh.borrow().cells.clone();
             if got != exp {
                 return Err(format!("console got {:?}, expected {:?}", summarize(&got), summarize(&exp)));
+            }
+            Ok(())
+        }
+        "left-out" => {
+            let (with, without) = (unhex(v["with"].as_str().unwrap_or("")), unhex(v["without"].as_str().unwrap_or("")));
+            let sh = Rc::new(RefCell::new(Shared::default()));
+            let mut stream = WinconStream::new(Console(sh.clone()));
+            stream.write_all(&with).map_err(|e| e.to_string())?;
+            let got = sh.borrow().cells.clone();
+            if got != expected_cells(&mut RunModel::default(), &with) && got != expected_cells(&mut RunModel::default(), &without) {
+                return Err(format!("console got {:?}", summarize(&got)));
             }
             Ok(())
         }
